@@ -1,32 +1,44 @@
 """C13 — Scaling, polynomial and elementwise transforms meet their numeric contracts.
 
-Correspondence stream `c13` (three request kinds, one engine):
+Correspondence stream `c13` (one engine, request kinds `scale`, `poly`, `elem`, `names`, `Q`, `treatment`, `identity`):
 
-* `scale`  — the real `scale` / `center` / `standardize` called with an explicit `_state` dict (or through
-  `model_matrix` + `model_spec.get_model_matrix`) on a fitting vector and follow-up vectors, against
-  `Model.Scale.run/center/standardize` at `Rat`.  `numpy.sqrt` is a parameter of the model: the harness
-  forwards the recorded float `scale` and checks the contract `scale**2 == var` (1e-12 relative) against the
-  variance the model computed exactly.
-* `poly`   — the real `poly` (orthogonal and raw, NaN rows, follow-up vectors, too-high follow-up degree)
-  against `Model.Poly.run`; `alpha`/`norms2` compared with the exact rationals (1e-9 relative), the roots
-  `sqrt(norms2[k])` are forwarded and contract-checked, outputs compared at 1e-9.
-* `elem`   — every elementwise key that `Model.Elementwise.table` names, looked up in the live `TRANSFORMS`
-  (and through a formula), evaluated at exactly representable probe points and compared EXACTLY with the
-  model's `exactAt`; plus random dyadic probes compared with the named real function computed with `math`.
+* `scale`  — the real `scale` / `center` / `standardize` as a caller reaches them: arguments written positionally, by
+  keyword or defaulted (also ill-formed lists: `TypeError`), data in every container and storage type (ndarray, list,
+  pandas / narwhals Series, `scipy.sparse` matrix with one column — or with 0/2/3: `ValueError`; float64, int64,
+  int32), an explicit `_state` dict threaded through a fitting call and follow-up calls (or `model_matrix` +
+  `model_spec.get_model_matrix` on a pandas frame / arrow table), against `Model.ScaleEntry.call` at `Rat` (binding
+  against the signatures regenerated from the live functions, sparse dispatch, then `Model.Scale.run`).  `numpy.sqrt`
+  is a parameter of the model: the harness forwards the recorded float `scale` and checks the contract
+  `scale**2 == var` (1e-12 relative) against the variance the model computed exactly.
+* `poly`   — the real `poly` (orthogonal and raw, NaN rows anywhere, follow-up vectors, too-high / negative / bool
+  degree, every spelling of the arguments, containers and integer storage) against `Model.PolyEntry.call` →
+  `Model.Poly.run`; `alpha`/`norms2` compared with the exact rationals (1e-9 relative), the roots `sqrt(norms2[k])`
+  are forwarded and contract-checked, outputs compared at 1e-9, `column_names` / formula labels compared exactly.
+* `elem`   — every elementwise key that `Model.Elementwise.table` names, looked up in the live `TRANSFORMS`, called on
+  every container (ndarray, Python / numpy scalar, 0-d array, list, Series, narwhals Series; pandas frame and arrow
+  table through a formula), evaluated at exactly representable probe points and compared EXACTLY with the model's
+  `exactAt`; plus random dyadic probes compared with the named real function computed with `math`.
+* `names`  — the contract of every preloaded name (`Model.Preloaded.contracts`) against `Gen/TransformTable.lean`.
+* `Q` / `treatment` / `identity` — the remaining shims of patsy_compat.py / identity.py against
+  `Model.PatsyCompat.Q` (named layers of the evaluation environment), `Treatment` (→ the treatment coding of C11's
+  contrast model) and `identity`.
 
 * route `ref` (scale and poly requests) — the same transforms with the state kept by the LIBRARY (the harness passes
   no `_state`): the call is written with every spelling of the callee (preloaded name, alias, module / package /
   namespace / class attribute, nested attribute, dict or list item, result of a call), at top level of the factor or
   inside another call / a quoted python fragment / arithmetic, and evaluated through `model_matrix` +
   `ModelSpec.get_model_matrix`, `Formula.get_model_matrix`, `model_matrix(spec, data)` with the names captured from
-  the calling frame, or `stateful_eval` with a shared state mapping — fitted on one vector, replayed on 1..2
-  follow-up vectors.  The recorded state and every output are compared with the model run on the same history.
+  the calling frame, or `stateful_eval` with a shared state mapping (data as a Series or a one-column sparse matrix) —
+  fitted on one vector, replayed on 1..2 follow-up vectors.  The recorded state and every output are compared with the
+  model run on the same history.
 
-Oracle (implementation alone): mean≈0 / std≈1 on the fitting data, follow-up data transformed with the
-recorded statistics (manual formula), poly columns orthonormal, orthogonal to 1, same span as raw powers,
-NaN rows propagate row-wise, exp/log pairs inverse, exp10(x) = 10**x.  Where the library keeps the state
-(routes `formula`, `ref`) the follow-up outputs are additionally checked against the affine map / the polynomials
-recovered from the fitting output alone, so a transform that is silently re-fitted is pinned whatever was recorded.
+Oracle (implementation alone): mean≈0 / std≈1 on the fitting data (std about the chosen centre when `center` is
+`False` or a number) whatever container / integer type holds the numbers, follow-up data transformed with the recorded
+statistics (manual formula), poly columns orthonormal, orthogonal to 1, same span as raw powers, raw columns are the
+powers, NaN rows propagate row-wise, exp/log pairs inverse, exp10(x) = 10**x in every container, Q returns the data
+column, Treatment(r) drops exactly level r, I(x) is x.  Where the library keeps the state (routes `formula`, `ref`)
+the follow-up outputs are additionally checked against the affine map / the polynomials recovered from the fitting
+output alone, so a transform that is silently re-fitted is pinned whatever was recorded.
 """
 from __future__ import annotations
 
@@ -45,53 +57,97 @@ REQUIRED_THEOREMS = [
     "scale_unit_std_real",
     "scale_applies_recorded",
     "scale_never_refits",
+    "scale_unit_about_center",
+    "scale_unit_about_center_real",
+    "entry_sparse",
+    "entry_defaults",
+    "entry_never_refits",
+    "standardize_unit_std_real",
     "three_term_orthogonal",
     "poly_orthogonal",
     "poly_orthonormal",
     "poly_spans_powers",
     "poly_nan_rowwise",
     "poly_applies_recorded",
+    "poly_raw_powers",
+    "poly_output_spans_powers",
+    "poly_nan_insert",
+    "poly_entry",
+    "poly_never_refits",
+    "poly_real_hypotheses",
+    "poly_orthonormal_real",
+    "poly_finite_iff_distinct",
     "exp_log_inverse",
     "exp10_def",
     "exactAt_sound",
     "table_names_live",
+    "preloaded_contracts",
+    "elementwise_identity",
+    "Q_reads_data_layer",
+    "Treatment_is_treatment_base",
+    "identity_id",
 ]
 TRUSTED = [
     "modelled, not verified: numpy.sqrt (parameter `sqrt` of the model with contract sqrt(v)^2 = v, checked per case "
     "to 1e-12 relative), numpy/libm exp, exp2, log, log2, log10, power (the model only names the real function; "
-    "exact agreement is checked at exactly representable points and 1e-12 relative agreement on random dyadic probes)",
+    "exact agreement is checked at exactly representable points and 1e-12 relative agreement on random dyadic probes, "
+    "in every container: ndarray, Python and numpy scalar, 0-d array, list, pandas Series, narwhals Series, a pandas "
+    "frame and an arrow table through a formula)",
     "IEEE-754 rounding: the model computes in exact rationals; outputs are compared at 1e-9, recorded statistics at 1e-12/1e-9 relative",
     "numpy yields nan/inf on division by zero without raising; the model reports that outcome as `nonFinite` "
     "(zero variance, ddof = n, fewer distinct values than degree + 1)",
-    "the stateful_transform wrapper (dict-valued data, singledispatch on sparse input) is not modelled; "
-    "the dict insertion order of poly's alpha/norms2 memo is not modelled",
+    "numpy.array(data) / data.toarray()[:, 0] turn every container (list, Series, narwhals Series, one-column scipy.sparse "
+    "matrix in csc/csr/coo format; float64, int64, int32 storage) into the vector of the numbers it holds: the model "
+    "receives that vector (`Data.dense` / `Data.sparse`), the conversion itself is numpy's / scipy's",
+    "the translator's classification of the TRANSFORMS entries (harness/translate.py `_classify_preloaded`: object "
+    "identity for named objects, exact probes for anonymous callables) that Gen/TransformTable.lean records",
+    "the dict-valued-data rule of the stateful_transform wrapper is not modelled here (it is C04's); the dict insertion "
+    "order of poly's alpha/norms2 memo is not modelled",
     "stateful_eval's AST rewriting (which call nodes are given `_state`, the key they are recorded under) is not "
     "modelled: the model is the transform with an explicit state; the route `ref` observes on every run that, for each "
     "spelling of the callee / position / entry point generated, the library-kept state and the follow-up outputs equal "
     "those of the model run with the state threaded explicitly",
+    "Contrasts.codingColumnNames / LayeredMapping layer trees are the models of C11 / C19 (imported unchanged); "
+    "`LayeredMapping.named_layers` is modelled here (Model/PatsyCompat.lean) and tied by the `Q` stream",
 ]
 ASSUMPTIONS = [
-    "scale_unit_std: ddof < n and the data are not constant (variance != 0)",
-    "poly_orthonormal: norms2[k] != 0 for k <= degree, i.e. at least degree + 1 distinct non-missing values",
+    "scale_unit_std / scale_unit_about_center: ddof != n and the data are not all equal to the chosen centre (variance != 0)",
+    "poly_orthonormal / poly_output_spans_powers / poly_applies_recorded (any field): norms2[k] != 0 for k <= degree; over "
+    "the reals this is proved equivalent to: more than `degree` distinct non-missing values (poly_finite_iff_distinct)",
     "exp_log_inverse: log(exp y) = y for all y, exp(log x) = x for x > 0",
+    "poly_nan_insert: the insertion position is at most the length of the vector",
 ]
 RULE = (
-    "scale: fn in {scale, center, standardize} x center/scale in {True, False, number} x ddof in {0,1,2,1/2,n} x "
-    "fitting vector (integers or dyadic rationals, length 2..30, magnitude <= 2^20, occasionally constant; in 40% of the cases "
-    "all data times 2^e, e in -60..60, every comparison relative to the data magnitude) x 0..2 "
-    "follow-up calls with other data AND other arguments (must be ignored), optional pre-seeded _state, route "
-    "direct or through model_matrix/model_spec; poly: degree 0..6 x raw x NaN rows x follow-ups (same, lower and "
-    "too-high degree) incl. vectors with too few distinct values; ref (state kept by the library): transform in "
+    "scale: fn in {scale, center, standardize} (possibly another of the three on each follow-up call) x written "
+    "arguments: each of center/scale|rescale/ddof positional, by keyword or defaulted, value in {True, False, number} "
+    "(ddof also as a bool), 10% ill-formed (unknown / foreign keyword, too many positionals, a parameter twice) x "
+    "container in {ndarray, list, pandas Series, narwhals Series, scipy.sparse csc/csr/coo with 1 column (a vector) or "
+    "0/2/3 columns (ValueError)} x storage float64/int64/int32 x fitting vector (integers or dyadic rationals, length "
+    "2..30, magnitude <= 2^20, occasionally constant; 40% times 2^e, e in -60..60; 12% integers m*2^e whose squares "
+    "overflow the integer type they are stored in) x 0..2 follow-up calls with other data AND other arguments (must be "
+    "ignored), optional pre-seeded _state, route direct or through model_matrix/model_spec on a pandas frame or an "
+    "arrow table (float or int64 column); poly: degree 0..6 (also negative, also written True) x raw (also written 0/1) "
+    "x spelling positional/keyword/default x ill-formed calls x container/storage as above x NaN rows x follow-ups "
+    "(same, lower and too-high degree) incl. vectors with too few distinct values, column names / formula labels; "
+    "ref (state kept by the library): transform in "
     "{scale, center, standardize, poly} x callee spelling in {preloaded name, alias name, module attribute, dotted package "
     "path, namespace attribute, nested attribute, class attribute, dict item, list item, call result} x position in "
     "{the factor itself, I(.), {.}, {1 * .}} x entry in {model_matrix + spec.get_model_matrix(context=dict), "
     "Formula.get_model_matrix + spec.get_model_matrix, model_matrix(formula)/model_matrix(spec) with names captured from "
-    "the caller's frame, stateful_eval with one shared state mapping} x output pandas/numpy x written arguments "
+    "the caller's frame, stateful_eval with one shared state mapping (data as a Series or a one-column sparse matrix)} "
+    "x output pandas/numpy x written arguments positional or keyword "
     "(center/scale flag or number, ddof in {0,1,2,1/2,n}; degree 1..5, raw) x fitting vector (as above, 30% scaled by 2^e) "
     "x 1..2 follow-up vectors; elem: every name of the model table x storage type "
-    "float64/int64/int32 x every probe index the type can hold (exp10: 10^k for k = -5..30 incl. negative and >= 19), "
-    "direct call and model_matrix on a column of that dtype, plus random dyadic and random integer-typed probes; non-trivial = fitting happens on a non-constant vector / degree >= 2 / "
-    "a probe with k != 0; distinct by canonical JSON"
+    "float64/int64/int32 x every probe index the type can hold (exp10: 10^k for k = -5..30 incl. negative and >= 19) x "
+    "container in {ndarray, Python scalar, numpy scalar, 0-d array, list, Series (index kept), narwhals Series} for direct "
+    "calls and {pandas frame, arrow table} through model_matrix, plus random dyadic and random integer-typed probes; "
+    "names: the contract of each of the 26 preloaded names against the live table; Q: 1..5 data columns and 0..2 context "
+    "entries drawn from names with spaces / dots / transform names / non-ASCII x queried name in data, in context only, "
+    "or nowhere x environment in {materializer (pandas, arrow), LayeredMapping with a layer named data / otherwise, plain "
+    "dict, no context}; Treatment: 2..5 string or integer levels x reference unset / a level / no level x with or without "
+    "intercept x positional or keyword x pandas/arrow; I: every container, and I(x) through a formula; "
+    "non-trivial = fitting happens on a non-constant vector / degree >= 2 / a probe with k != 0 / more than one column / "
+    "a reference given; distinct by canonical JSON"
 )
 
 ELEM_NAMES = ["log", "log10", "log2", "exp", "exp10", "exp2"]
@@ -187,6 +243,128 @@ def shift_mag(vec, e):
     return [fr(Fraction(v) * f) for v in vec]
 
 
+# --- how the data reach the transform: every container the library (or a caller) hands over, and the storage type
+CONTAINERS = ["ndarray", "ndarray", "list", "series", "nwseries", "sparse", "sparse"]
+SPARSE_FORMATS = ["csc", "csr", "coo"]
+# the documented signatures (scale.py / patsy_compat.py docstrings), restated for the oracle and the generators
+WRITTEN_PARAMS = {"scale": ["center", "scale", "ddof"], "center": [], "standardize": ["center", "rescale", "ddof"],
+                  "poly": ["degree", "raw"]}
+DOC_DEFAULTS = {"scale": dict(center=True, scale=True, ddof="1/1"), "center": dict(center=True, scale=False, ddof="1/1"),
+                "standardize": dict(center=True, scale=True, ddof="0/1")}
+
+
+def written(call):
+    """(positional list, [(keyword, value)]) of the arguments written after the data argument.  Older cases carry
+    the keywords as `center` / `scale` / `ddof` entries of the call itself."""
+    if "pos" in call or "kw" in call:
+        return list(call.get("pos", [])), [tuple(p) for p in call.get("kw", [])]
+    fn = call.get("fn")
+    kw = []
+    if "center" in call:
+        kw.append(("center", call["center"]))
+    if "scale" in call:
+        kw.append(("rescale" if fn == "standardize" else "scale", call["scale"]))
+    if "ddof" in call:
+        kw.append(("ddof", call["ddof"]))
+    return [], kw
+
+
+def bound_args(fn, call):
+    """independent restatement of Python's argument binding against the DOCUMENTED parameter list: parameter -> value,
+    or None when the call is ill-formed (TypeError)"""
+    pos, kw = written(call)
+    params = WRITTEN_PARAMS[fn]
+    if len(pos) > len(params):
+        return None
+    out = dict(zip(params, pos))
+    for k, v in kw:
+        if k not in params or k in out:
+            return None
+        out[k] = v
+    return out
+
+
+def effective(call):
+    """center / scale / ddof the call asks for (documented defaults filled in); None for an ill-formed call"""
+    fn = call["fn"]
+    b = bound_args(fn, call)
+    if b is None:
+        return None
+    d = dict(DOC_DEFAULTS[fn])
+    if "center" in b:
+        d["center"] = b["center"]
+    if "scale" in b or "rescale" in b:
+        d["scale"] = b.get("scale", b.get("rescale"))
+    if "ddof" in b:
+        d["ddof"] = b["ddof"]
+    return d
+
+
+def rand_written(rng, fn, n):
+    """a well-formed argument list: each parameter written positionally, by keyword, or left to its default"""
+    params = WRITTEN_PARAMS[fn]
+    vals = {}
+    for p in params:
+        if rng.random() < 0.75:
+            if p == "ddof":
+                vals[p] = rng.choice([fr(0), fr(1), fr(1), fr(2), fr(Fraction(1, 2)), fr(n), fr(n + 1), True, False])
+            else:
+                vals[p] = rand_arg(rng)
+    npos = 0
+    if rng.random() < 0.35:
+        while npos < len(params) and params[npos] in vals and rng.random() < 0.7:
+            npos += 1
+    pos = [vals[p] for p in params[:npos]]
+    kws = [(p, vals[p]) for p in params[npos:] if p in vals]
+    rng.shuffle(kws)
+    return pos, [list(k) for k in kws]
+
+
+def rand_bad_written(rng, fn, n):
+    """an ill-formed argument list (each of these is a TypeError in Python, before any statistic is touched)"""
+    params = WRITTEN_PARAMS[fn]
+    other = {"scale": "rescale", "standardize": "scale", "center": rng.choice(["scale", "center", "ddof"])}[fn]
+    how = rng.choice(["unknown", "unknown", "toomany", "twice"] if params else ["unknown", "toomany"])
+    if how == "unknown":
+        pos, kw = rand_written(rng, fn, n)
+        kw.insert(rng.randrange(len(kw) + 1), [rng.choice([other, "Center", "dof"]), rand_arg(rng)])
+        return pos, kw
+    if how == "toomany":
+        return [rand_arg(rng) for _ in range(len(params) + 1)], []
+    k = rng.randrange(len(params))
+    return [rand_arg(rng) for _ in range(k + 1)], [[params[rng.randrange(k + 1)], rand_arg(rng)]]
+
+
+def int_storable(vec, dtype):
+    lo, hi = INT_RANGE[dtype]
+    return all(Fraction(v).denominator == 1 and lo <= Fraction(v).numerator <= hi for v in vec)
+
+
+def boxed(rng, call, vec, allow_sparse=True):
+    """choose container and storage type for the vector `vec` of a call"""
+    kind = rng.choice(CONTAINERS if allow_sparse else [k for k in CONTAINERS if k != "sparse"])
+    call["container"] = kind
+    if kind == "sparse":
+        call["format"] = rng.choice(SPARSE_FORMATS)
+        ncols = rng.choice([1, 1, 1, 1, 0, 2, 3])
+        cols = [list(vec)] if ncols == 1 else [
+            [fr(Fraction(rng.randint(-9, 9))) if rng.random() < 0.6 else fr(0) for _ in vec] for _ in range(ncols)]
+        call["cols"] = cols
+        return
+    dtypes = ["float64", "float64"] + [d for d in ("int64", "int32") if int_storable(vec, d)]
+    call["dtype"] = rng.choice(dtypes)
+
+
+def big_int_vector(rng, n, dtype=None):
+    """integers m * 2^e, |m| <= 9 (exact as floats, spread comparable to magnitude), whose squares do not fit the
+    integer type they can be stored in (>= 2^16 for int32, >= 2^32 for int64)"""
+    e = rng.choice([16, 20, 27] if dtype == "int32" else [16, 20, 27, 31, 33, 40, 50, 59])
+    v = [rng.randint(-9, 9) for _ in range(n)]
+    if len(set(v)) < 2:
+        v[0], v[-1] = 1, -3
+    return [fr(m * 2 ** e) for m in v]
+
+
 def gen_scale(rng):
     fn = rng.choice(["scale", "scale", "scale", "center", "standardize"])
     calls = []
@@ -201,22 +379,23 @@ def gen_scale(rng):
         ncalls = 2
     for i in range(ncalls):
         kind0 = rng.choice(["small", "big", "dyadic", "offset"]) if route == "formula" else None
-        c = dict(fn=fn, data=rand_vector(rng, kind=kind0 if i == 0 else rng.choice(["small", "big", "dyadic"])))
-        if fn != "center" and route == "direct":
-            if rng.random() < 0.8:
-                c["center"] = rand_arg(rng)
-            if rng.random() < 0.8:
-                c["scale"] = rand_arg(rng)
-            if rng.random() < 0.7:
-                n = len(c["data"])
-                c["ddof"] = fr(rng.choice([0, 1, 1, 2, Fraction(1, 2), n, n + 1]))
-        if mag:
+        fni = fn if (route == "formula" or rng.random() < 0.8) else rng.choice(["scale", "center", "standardize"])
+        c = dict(fn=fni, data=rand_vector(rng, kind=kind0 if i == 0 else rng.choice(["small", "big", "dyadic"])))
+        if route == "direct" and rng.random() < 0.12:
+            c["data"] = big_int_vector(rng, len(c["data"]))
+        if route == "direct":
+            n = len(c["data"])
+            if rng.random() < 0.1:
+                c["bad"] = True
+                c["pos"], c["kw"] = rand_bad_written(rng, fni, n)
+            else:
+                c["pos"], c["kw"] = rand_written(rng, fni, n)
+        if mag and "bad" not in c and not (route == "direct" and int_storable(c["data"], "int64") and rng.random() < 0.3):
             e = mag if (i == 0 or rng.random() < 0.7) else rng.choice(MAG_EXPONENTS + [0])
             c["data"] = shift_mag(c["data"], e)
+        if route == "direct":
+            boxed(rng, c, c["data"])
         calls.append(c)
-    if route == "formula":
-        # through a formula the data of the fit must be non-degenerate enough for the materializer; any vector works
-        pass
     state = {}
     if route == "direct" and rng.random() < 0.15:  # pre-seeded (possibly partial) state
         if rng.random() < 0.6:
@@ -225,7 +404,12 @@ def gen_scale(rng):
             state["center"] = rng.choice([None, fr(Fraction(rng.randint(-8, 8), 2))])
         if rng.random() < 0.6:
             state["scale"] = rng.choice([None, fr(Fraction(rng.randint(1, 9), 2)), fr(0)])
-    return dict(kind="scale", route=route, state=state, calls=calls, mag=mag)
+    case = dict(kind="scale", route=route, state=state, calls=calls, mag=mag)
+    if route == "formula":
+        case["frame"] = rng.choice(["pandas", "pandas", "arrow"])
+        if all(int_storable(cc["data"], "int64") for cc in calls) and rng.random() < 0.5:
+            case["dtype"] = "int64"
+    return case
 
 
 def rand_poly_vector(rng, n=None, degree=0):
@@ -253,19 +437,90 @@ def rand_poly_vector(rng, n=None, degree=0):
     return out
 
 
+def written_poly(call):
+    """(positional list, [(keyword, value)]) written after `x`; older cases: `poly(x, degree, raw=raw)`"""
+    if "pos" in call or "kw" in call:
+        return list(call.get("pos", [])), [tuple(p) for p in call.get("kw", [])]
+    return [call["degree"]], [("raw", call["raw"])]
+
+
+def rand_poly_written(rng, degree, raw):
+    """one of the spellings of `poly(x, degree, raw)`: positional / keyword / default (degree = 1, raw = False),
+    `raw` also as the integers 0 / 1, `degree = 1` also as `True`"""
+    rawv = rng.choice([raw, raw, int(raw)])
+    degv = True if (degree == 1 and rng.random() < 0.1) else degree
+    r = rng.random()
+    if degree == 1 and not raw and r < 0.2:
+        return [], []
+    if degree == 1 and r < 0.3:
+        return [], [["raw", rawv]]
+    if not raw and r < 0.45:
+        return ([degv], []) if rng.random() < 0.5 else ([], [["degree", degv]])
+    if r < 0.6:
+        return [degv, rawv], []
+    if r < 0.8:
+        kws = [["degree", degv], ["raw", rawv]]
+        rng.shuffle(kws)
+        return [], kws
+    return [degv], [["raw", rawv]]
+
+
+def rand_poly_bad(rng, degree, raw):
+    how = rng.choice(["unknown", "toomany", "twice"])
+    if how == "unknown":
+        return [degree], [[rng.choice(["deg", "Raw", "center", "ddof"]), rng.choice([True, False, 2])]]
+    if how == "toomany":
+        return [degree, raw, rng.choice([True, 1, 0])], []
+    return [degree], [["degree", degree], ["raw", raw]]
+
+
+def boxed_poly(rng, call):
+    vec = call["x"]
+    kind = rng.choice(["ndarray", "ndarray", "list", "series", "nwseries"])
+    call["container"] = kind
+    dtypes = ["float64", "float64"]
+    if all(v is not None for v in vec):
+        dtypes += [d for d in ("int64", "int32") if int_storable(vec, d)]
+    call["dtype"] = rng.choice(dtypes)
+
+
 def gen_poly(rng):
     degree = rng.choice([0, 1, 1, 2, 2, 3, 3, 4, 5, 6])
-    raw = rng.random() < 0.15
+    raw = rng.random() < 0.2
     if degree >= 1 and rng.random() < 0.15:
         # through a formula: fit with model_matrix, replay with model_spec.get_model_matrix (same degree, no NaN)
         def vec():
             return [v for v in rand_poly_vector(rng, degree=degree) if v is not None]
-        return dict(kind="poly", route="formula",
-                    calls=[dict(x=vec(), degree=degree, raw=raw), dict(x=vec(), degree=degree, raw=raw)])
+        c = dict(kind="poly", route="formula",
+                 calls=[dict(x=vec(), degree=degree, raw=raw), dict(x=vec(), degree=degree, raw=raw)])
+        if all(int_storable(cc["x"], "int64") for cc in c["calls"]) and rng.random() < 0.5:
+            c["dtype"] = "int64"  # an integer column of the data frame
+        c["frame"] = rng.choice(["pandas", "pandas", "arrow"])
+        return c
     calls = [dict(x=rand_poly_vector(rng, degree=degree), degree=degree, raw=raw)]
     for _ in range(rng.choice([0, 1, 1, 2])):
         d2 = rng.choice([degree, degree, degree, max(0, degree - 1), degree + 1])
         calls.append(dict(x=rand_poly_vector(rng, degree=max(degree, d2)), degree=d2, raw=raw))
+    if max(cc["degree"] for cc in calls) <= 3 and rng.random() < 0.25:
+        # "any magnitude": the whole history times 2^e (exact in binary floating point; alpha scales with 2^e,
+        # norms2[k] with 2^(2ek), the orthonormal columns not at all)
+        e = rng.choice([-30, -20, -10, 10, 20, 30])
+        for cc in calls:
+            cc["x"] = [None if v is None else fr(Fraction(v) * Fraction(2) ** e) for v in cc["x"]]
+    for call in calls:
+        call["pos"], call["kw"] = rand_poly_written(rng, call["degree"], call["raw"])
+        boxed_poly(rng, call)
+    r = rng.random()
+    if r < 0.08:  # an ill-formed last call
+        call = dict(x=rand_poly_vector(rng, degree=degree), degree=degree, raw=raw, bad=True)
+        call["pos"], call["kw"] = rand_poly_bad(rng, degree, raw)
+        boxed_poly(rng, call)
+        calls.append(call)
+    elif r < 0.12:  # a negative degree (last call)
+        call = dict(x=rand_poly_vector(rng, degree=1), degree=-rng.choice([1, 1, 2, 5]), raw=raw)
+        call["pos"], call["kw"] = [call["degree"]], [["raw", raw]]
+        boxed_poly(rng, call)
+        calls.append(call)
     return dict(kind="poly", calls=calls)
 
 
@@ -307,13 +562,8 @@ def ref_inner(c):
         callee = ref_callee(c["form"], "poly")
         return f"{callee}(x, {c0['degree']}, raw=True)" if c0["raw"] else f"{callee}(x, {c0['degree']})"
     callee = ref_callee(c["form"], c0["fn"])
-    args = ""
-    if "center" in c0:
-        args += f", center={_lit(c0['center'])}"
-    if "scale" in c0:
-        args += f", {'rescale' if c0['fn'] == 'standardize' else 'scale'}={_lit(c0['scale'])}"
-    if "ddof" in c0:
-        args += f", ddof={_lit(c0['ddof'])}"
+    pos, kws = written(c0)
+    args = "".join(f", {_lit(a)}" for a in pos) + "".join(f", {k}={_lit(a)}" for k, a in kws)
     return f"{callee}(x{args})"
 
 
@@ -354,12 +604,25 @@ def gen_ref(rng):
             args["scale"] = rand_arg(rng)
         if rng.random() < 0.5:
             args["ddof"] = fr(rng.choice([0, 1, 1, 2, Fraction(1, 2), len(first)]))
+    # written positionally when the written arguments are a prefix of the parameter list
+    params = WRITTEN_PARAMS[fn]
+    keys = {"center": "center", "scale": "rescale" if fn == "standardize" else "scale", "ddof": "ddof"}
+    named = [(keys[k], v) for k, v in args.items()]
+    npos = 0
+    if rng.random() < 0.4:
+        while npos < len(named) and named[npos][0] == params[npos]:
+            npos += 1
+    # the data as a one-column scipy.sparse matrix (scale.py dispatches on it) where the entry point takes any object
+    sparse = where["entry"] == "stateful_eval" and where["pos"] in ("top", "I") and rng.random() < 0.5
     calls = []
     for i in range(1 + nfollow):
         data = first if i == 0 else rand_vector(rng, kind=rng.choice(["small", "big", "dyadic"]))
         if mag:
             data = shift_mag(data, mag if (i == 0 or rng.random() < 0.7) else rng.choice(MAG_EXPONENTS + [0]))
-        calls.append(dict(fn=fn, data=data, **args))
+        call = dict(fn=fn, data=data, pos=[v for _, v in named[:npos]], kw=[list(k) for k in named[npos:]])
+        if sparse:
+            call.update(container="sparse", format=rng.choice(SPARSE_FORMATS), cols=[data])
+        calls.append(call)
     return dict(kind="scale", state={}, calls=calls, mag=mag, **where)
 
 
@@ -380,6 +643,9 @@ def elem_probe_indices(name, dtype):
     return [0] if dtype != "int32" else []
 
 
+ELEM_BOXES = ["ndarray", "scalar", "npscalar", "zerodim", "list", "series", "nwseries"]
+
+
 def gen_elem_exact():
     for name in ELEM_NAMES:
         for dtype in ("float64", "int64", "int32"):
@@ -388,7 +654,13 @@ def gen_elem_exact():
                     via = "formula" if k % 5 == 2 else "direct"
                 else:  # integer columns: every exp10 probe also through a formula, the others every third
                     via = "formula" if (name == "exp10" or k % 3 == 1) else "direct"
-                yield dict(kind="elem", name=name, k=k, via=via, dtype=dtype)
+                c = dict(kind="elem", name=name, k=k, via=via, dtype=dtype)
+                # every container the library (or a caller) passes: spread deterministically over the probes
+                if via == "direct":
+                    c["box"] = ELEM_BOXES[(k + len(name)) % len(ELEM_BOXES)]
+                else:
+                    c["frame"] = "arrow" if k % 2 == 0 else "pandas"
+                yield c
 
 
 def gen_elem_rand(rng):
@@ -411,7 +683,57 @@ def gen_elem_rand(rng):
         x = Fraction(rng.randint(-(2 ** 14), 2 ** 14), 2 ** 8)  # |x| <= 64
     else:
         x = Fraction(rng.randint(-(2 ** 12), 2 ** 12), 2 ** 8)
-    return dict(kind="elemrand", name=name, x=fr(x), via=rng.choice(["direct", "direct", "formula"]), dtype=dtype)
+    c = dict(kind="elemrand", name=name, x=fr(x), via=rng.choice(["direct", "direct", "formula"]), dtype=dtype)
+    if c["via"] == "direct":
+        c["box"] = rng.choice(ELEM_BOXES)
+    else:
+        c["frame"] = rng.choice(["pandas", "arrow"])
+    return c
+
+
+# --- the remaining shims of patsy_compat.py / identity.py: Q (a data column by its name), Treatment (treatment coding
+# --- with a reference level), I (the identity)
+Q_NAMES = ["x", "y", "my var", "a.b", "log", "scale", "np", "1x", "x y z", "data", "context", "\u00e9t\u00e9", "a-b", "_state", "x ", "(x)"]
+
+
+def gen_q(rng):
+    names = rng.sample(Q_NAMES, rng.choice([1, 2, 3, 5]))
+    ctx = rng.sample(Q_NAMES, rng.choice([0, 1, 2]))
+    r = rng.random()
+    variable = rng.choice(names) if r < 0.7 else (rng.choice(ctx) if ctx and r < 0.85 else rng.choice(Q_NAMES))
+    env = rng.choice(["materializer", "materializer", "materializer", "named", "plain", "none"])
+    c = dict(kind="Q", columns=names, context=ctx, variable=variable, env=env)
+    if env == "materializer":
+        c["frame"] = rng.choice(["pandas", "pandas", "arrow"])
+        c["quote"] = rng.choice(["'", '"'])
+    if env == "named":
+        c["layer"] = rng.choice(["data", "data", "frame", "context"])
+    return c
+
+
+def gen_treatment(rng):
+    if rng.random() < 0.6:
+        pool = ["a", "b", "c", "d", "B", "aa", "b c", "T.a", "z"]
+        levels = sorted(rng.sample(pool, rng.choice([2, 3, 3, 4, 5])))
+        outsider = "w"
+    else:
+        levels = sorted(rng.sample(range(-3, 12), rng.choice([2, 3, 4])))
+        outsider = 99
+    r = rng.random()
+    ref = None if r < 0.2 else (outsider if r < 0.3 else rng.choice(levels))
+    rows = levels + [rng.choice(levels) for _ in range(rng.choice([0, 2, 5]))]
+    rng.shuffle(rows)
+    return dict(kind="treatment", levels=levels, rows=rows, reference=ref, intercept=rng.random() < 0.6,
+                spelling=rng.choice(["pos", "kw"]) if ref is not None else "unset",
+                frame=rng.choice(["pandas", "pandas", "arrow"]))
+
+
+def gen_identity(rng):
+    vec = rand_vector(rng, kind=rng.choice(["small", "big", "dyadic"]))
+    c = dict(kind="identity", data=vec, box=rng.choice(ELEM_BOXES + ["frame", "dict", "str"]))
+    c["dtype"] = rng.choice(["float64"] + [d for d in ("int64", "int32") if int_storable(vec, d)])
+    c["frame"] = rng.choice(["pandas", "arrow"])
+    return c
 
 
 def cases(rng, tier):
@@ -427,11 +749,22 @@ def cases(rng, tier):
         yield gen_poly(rng)
     for _ in range(nref):
         yield gen_ref(rng)
+    nshim = {"quick": 60, "thorough": 600, "search": 30}[tier]
+    for _ in range(nshim):
+        yield gen_q(rng)
+        yield gen_treatment(rng)
+        yield gen_identity(rng)
 
 
 def describe(c):
     if c["kind"] == "names":
         return "names"
+    if c["kind"] == "Q":
+        return f"Q:{c['env']}:{'in' if c['variable'] in c['columns'] else 'out'}"
+    if c["kind"] == "treatment":
+        return f"Treatment:{'unset' if c['reference'] is None else 'level' if c['reference'] in c['levels'] else 'outsider'}:icpt={int(c['intercept'])}"
+    if c["kind"] == "identity":
+        return f"I:{c['box']}"
     if c.get("route") == "ref":
         fn = "poly" if c["kind"] == "poly" else c["calls"][0]["fn"]
         return f"ref:{fn}:{c['form']}:{c['pos']}:{c['entry']}"
@@ -448,6 +781,12 @@ def describe(c):
 def nontrivial(c):
     if c["kind"] == "names":
         return True
+    if c["kind"] == "Q":
+        return len(c["columns"]) > 1
+    if c["kind"] == "treatment":
+        return c["reference"] is not None
+    if c["kind"] == "identity":
+        return True
     if c["kind"] == "scale":
         return len(set(c["calls"][0]["data"])) > 1 and "scale" not in c["state"]
     if c["kind"] == "poly":
@@ -461,7 +800,7 @@ def nontrivial(c):
 
 
 def _py_arg(a):
-    return a if isinstance(a, bool) else fl(a)
+    return a if isinstance(a, bool) else _num(a)
 
 
 def _num(a):
@@ -522,8 +861,9 @@ def _ref_run(c, vectors):
         from formulaic.utils.stateful_transforms import stateful_eval
 
         state = {}
-        for v in vectors:
-            env = {**TRANSFORMS, **ctx, "x": pandas.Series(v)}
+        for call, v in zip(c["calls"], vectors):
+            x = make_container(call, call["data"]) if call.get("container") == "sparse" else pandas.Series(v)
+            env = {**TRANSFORMS, **ctx, "x": x}
             yield stateful_eval(ref_expr(c, python=True), env, None, state, None), state
         return
     from formulaic import Formula, model_matrix
@@ -586,35 +926,56 @@ def impl_scale(c):
 
         fn = c["calls"][0]["fn"]
         expr = f"{fn}(x)"
-        d1 = pandas.DataFrame({"x": [fl(v) for v in c["calls"][0]["data"]]})
-        mm = model_matrix("0 + " + expr, d1)
-        spec = mm.model_spec
-        res.append(dict(out=[jf(v) for v in numpy.asarray(mm)[:, 0]], state=_scale_state_obs(spec.transform_state[expr])))
-        d2 = pandas.DataFrame({"x": [fl(v) for v in c["calls"][1]["data"]]})
-        m2 = spec.get_model_matrix(d2)
-        res.append(dict(out=[jf(v) for v in numpy.asarray(m2)[:, 0]], state=_scale_state_obs(spec.transform_state[expr])))
+        with numpy.errstate(all="ignore"):
+            mm = model_matrix("0 + " + expr, make_frame(c, c["calls"][0]["data"]))
+            spec = mm.model_spec
+            res.append(dict(out=[jf(v) for v in as_matrix(mm)[:, 0]], state=_scale_state_obs(spec.transform_state[expr])))
+            m2 = spec.get_model_matrix(make_frame(c, c["calls"][1]["data"]))
+            res.append(dict(out=[jf(v) for v in as_matrix(m2)[:, 0]], state=_scale_state_obs(spec.transform_state[expr])))
         return dict(calls=res)
     st = {}
     for k, v in c["state"].items():
         st[k] = None if v is None else _num(v)
     for call in c["calls"]:
         f = TRANSFORMS[call["fn"]]
-        kw = {}
-        if "center" in call:
-            kw["center"] = _py_arg(call["center"])
-        if "scale" in call:
-            kw["rescale" if call["fn"] == "standardize" else "scale"] = _py_arg(call["scale"])
-        if "ddof" in call:
-            kw["ddof"] = _num(call["ddof"])
-        data = numpy.array([fl(v) for v in call["data"]], dtype=float)
+        pos, kws = written(call)
         try:
+            data = make_container(call, call["data"])
             with numpy.errstate(all="ignore"):
-                out = f(data, _state=st, **kw)
-        except Exception as e:
+                out = f(data, *[_py_arg(a) for a in pos], _state=st, **{k: _py_arg(v) for k, v in kws})
+        except Exception as e:  # a raised exception leaves `_state` as it was: the history goes on
             res.append(dict(error=type(e).__name__))
-            break
-        res.append(dict(out=[jf(v) for v in numpy.asarray(out, dtype=float)], state=_scale_state_obs(st)))
+            continue
+        res.append(dict(out=[jf(v) for v in numpy.asarray(out, dtype=float).reshape(-1)], state=_scale_state_obs(st)))
     return dict(calls=res)
+
+
+def make_container(call, vec, nan_ok=False):
+    """the vector `vec` ("p/q" strings, None = missing) in the container / storage type the call names"""
+    kind = call.get("container", "ndarray")
+    if kind == "sparse":
+        import scipy.sparse as sp
+
+        cols = call["cols"]
+        n = len(vec) if not cols else len(cols[0])
+        dense = numpy.array([[fl(v) for v in col] for col in cols], dtype=float).T if cols else numpy.zeros((n, 0))
+        return {"csc": sp.csc_matrix, "csr": sp.csr_matrix, "coo": sp.coo_matrix}[call.get("format", "csc")](dense.reshape(n, len(cols)))
+    dtype = call.get("dtype", "float64")
+    if dtype == "float64":
+        vals = [float("nan") if v is None else fl(v) for v in vec]
+        arr = numpy.array(vals, dtype=numpy.float64)
+    else:
+        vals = [Fraction(v).numerator for v in vec]
+        arr = numpy.array(vals, dtype=dtype)
+    if kind == "list":
+        return vals
+    if kind == "series":
+        return pandas.Series(arr, index=[3 * i + 2 for i in range(len(vals))])
+    if kind == "nwseries":
+        import narwhals
+
+        return narwhals.from_native(pandas.Series(arr), series_only=True)
+    return arr
 
 
 def _poly_state_obs(st):
@@ -641,20 +1002,50 @@ def _poly_obs(arr, st, nrows, degree):
     return obs
 
 
+def make_frame(c, vec):
+    """the data set of a formula-route case: a pandas frame or an arrow table (narwhals materializer), the column
+    stored as float64 or as the integer type the case names"""
+    dtype = c.get("dtype", "float64")
+    vals = [fl(v) for v in vec] if dtype == "float64" else [Fraction(v).numerator for v in vec]
+    col = numpy.array(vals, dtype=dtype)
+    if c.get("frame") == "arrow":
+        import pyarrow
+
+        return pyarrow.table({"x": col})
+    return pandas.DataFrame({"x": col})
+
+
+def as_matrix(mm):
+    """a model matrix of any materializer as a float ndarray"""
+    if hasattr(mm, "to_pandas") and not isinstance(mm, pandas.DataFrame):
+        mm = mm.to_pandas()
+    return numpy.asarray(mm, dtype=float)
+
+
+def column_labels(mm):
+    if hasattr(mm, "to_pandas") and not isinstance(mm, pandas.DataFrame):
+        mm = mm.to_pandas()
+    return [str(x) for x in getattr(mm, "columns", [])]
+
+
 def impl_poly_formula(c):
     from formulaic import model_matrix
 
     c0 = c["calls"][0]
     expr = f"poly(x, {c0['degree']}, raw=True)" if c0["raw"] else f"poly(x, {c0['degree']})"
     res = []
-    d1 = pandas.DataFrame({"x": [fl(v) for v in c0["x"]]})
+    d1 = make_frame(c, c0["x"])
     with numpy.errstate(all="ignore"):
         mm = model_matrix("0 + " + expr, d1, na_action="ignore")
         spec = mm.model_spec
-        res.append(_poly_obs(mm, dict(spec.transform_state.get(expr, {})), len(d1), c0["degree"]))
-        d2 = pandas.DataFrame({"x": [fl(v) for v in c["calls"][1]["x"]]})
+        res.append(_poly_obs(as_matrix(mm), dict(spec.transform_state.get(expr, {})), len(c0["x"]), c0["degree"]))
+        res[-1]["labels"] = column_labels(mm)
+        res[-1]["expr"] = expr
+        d2 = make_frame(c, c["calls"][1]["x"])
         m2 = spec.get_model_matrix(d2)
-        res.append(_poly_obs(m2, dict(spec.transform_state.get(expr, {})), len(d2), c0["degree"]))
+        res.append(_poly_obs(as_matrix(m2), dict(spec.transform_state.get(expr, {})), len(c["calls"][1]["x"]), c0["degree"]))
+        res[-1]["labels"] = column_labels(m2)
+        res[-1]["expr"] = expr
     return dict(calls=res)
 
 
@@ -668,10 +1059,11 @@ def impl_poly(c):
     st = {}
     res = []
     for call in c["calls"]:
-        x = numpy.array([numpy.nan if v is None else fl(v) for v in call["x"]], dtype=float)
+        pos, kws = written_poly(call)
         try:
+            x = make_container(call, call["x"])
             with numpy.errstate(all="ignore"):
-                out = TRANSFORMS["poly"](x, call["degree"], raw=call["raw"], _state=st)
+                out = TRANSFORMS["poly"](x, *pos, _state=st, **dict(kws))
         except Exception as e:
             res.append(dict(error=type(e).__name__))
             break
@@ -679,7 +1071,7 @@ def impl_poly(c):
         if arr.ndim != 2:
             res.append(dict(cols="bad-shape", state=_poly_state_obs(st)))
             continue
-        obs = _poly_obs(arr, st, len(x), call["degree"])
+        obs = _poly_obs(arr, st, len(call["x"]), call["degree"])
         meta = getattr(out, "__formulaic_metadata__", None)
         if meta is not None and getattr(meta, "column_names", None) is not None:
             obs["column_names"] = list(meta.column_names)
@@ -695,12 +1087,38 @@ def _elem_array(x, dtype, n=1):
     return numpy.array([x.numerator] * n, dtype=dtype)
 
 
-def _elem_eval(name, x, via, dtype="float64"):
+def _elem_boxed(x, dtype, box):
+    """the probe value in the container `box`, stored as `dtype`"""
+    arr = _elem_array(x, dtype, 2)
+    if box == "scalar":
+        return float(x) if dtype == "float64" else int(x)
+    if box == "npscalar":
+        return arr[0]
+    if box == "zerodim":
+        return numpy.array(arr[0])
+    if box == "list":
+        return arr.tolist()
+    if box == "series":
+        return pandas.Series(arr, index=[7, 3])
+    if box == "nwseries":
+        import narwhals
+
+        return narwhals.from_native(pandas.Series(arr), series_only=True)
+    return arr
+
+
+def _elem_eval(name, x, via, dtype="float64", box="ndarray", frame="pandas"):
     from formulaic.transforms import TRANSFORMS
 
+    f = TRANSFORMS[name]
     try:
         with numpy.errstate(all="ignore"):
-            direct = jf(float(numpy.asarray(TRANSFORMS[name](_elem_array(x, dtype)), dtype=float)[0]))
+            direct = jf(float(numpy.asarray(f(_elem_array(x, dtype)), dtype=float)[0]))
+            if box != "ndarray":
+                r = f(_elem_boxed(x, dtype, box))
+                vals = numpy.asarray(r, dtype=float).reshape(-1)
+                if any(jf(v) != jf(vals[0]) for v in vals) or (jf(vals[0]) != direct):
+                    direct = f"{jf(vals[0])!r} in a {box}, {direct!r} in an ndarray"
     except Exception as e:  # the property allows no exception on a finite real input
         direct = "raised " + type(e).__name__
     out = dict(direct=direct)
@@ -708,9 +1126,16 @@ def _elem_eval(name, x, via, dtype="float64"):
         from formulaic import model_matrix
 
         try:
+            col = _elem_array(x, dtype, 2)
+            if frame == "arrow":
+                import pyarrow
+
+                data = pyarrow.table({"x": col})
+            else:
+                data = pandas.DataFrame({"x": col})
             with numpy.errstate(all="ignore"):
-                mm = model_matrix(f"0 + {name}(x)", pandas.DataFrame({"x": _elem_array(x, dtype, 2)}), na_action="ignore")
-            out["formula"] = jf(numpy.asarray(mm, dtype=float)[0, 0])
+                mm = model_matrix(f"0 + {name}(x)", data, na_action="ignore")
+            out["formula"] = jf(as_matrix(mm)[0, 0])
         except Exception as e:
             out["formula"] = "raised " + type(e).__name__
     return out
@@ -728,11 +1153,136 @@ def _elem_point(name, k):
     return Fraction(1)
 
 
+def _q_tag(values, c):
+    """which object came back: data column i holds [10 i + 1, 10 i + 2], context entry j holds [1000 + 10 j + 1, …]"""
+    v = numpy.asarray(values.to_numpy() if hasattr(values, "to_numpy") else values, dtype=float).reshape(-1)
+    if v.shape != (2,):
+        return f"shape {v.shape}"
+    for i, nm in enumerate(c["columns"]):
+        if v.tolist() == [10.0 * i + 1, 10.0 * i + 2]:
+            return "data:" + nm
+    for j, nm in enumerate(c["context"]):
+        if v.tolist() == [1000.0 + 10 * j + 1, 1000.0 + 10 * j + 2]:
+            return "context:" + nm
+    return f"values {v.tolist()}"
+
+
+def impl_q(c):
+    from formulaic.transforms import TRANSFORMS
+    from formulaic.utils.layered_mapping import LayeredMapping
+    from formulaic.utils.stateful_transforms import stateful_eval
+
+    data = {nm: [10.0 * i + 1, 10.0 * i + 2] for i, nm in enumerate(c["columns"])}
+    ctx = {nm: numpy.array([1000.0 + 10 * j + 1, 1000.0 + 10 * j + 2]) for j, nm in enumerate(c["context"])}
+    q = c.get("quote", "'")
+    expr = f"Q({q}{c['variable']}{q})"
+    try:
+        if c["env"] == "materializer":
+            from formulaic import model_matrix
+
+            if c["frame"] == "arrow":
+                import pyarrow
+
+                frame = pyarrow.table(data)
+            else:
+                frame = pandas.DataFrame(data)
+            mm = model_matrix("0 + " + expr, frame, context=ctx, na_action="ignore")
+            return dict(value=_q_tag(as_matrix(mm)[:, 0], c))
+        if c["env"] == "none":
+            return dict(value=_q_tag(TRANSFORMS["Q"](c["variable"]), c))
+        if c["env"] == "named":
+            env = LayeredMapping(LayeredMapping(data, name=c["layer"]), {**ctx, **TRANSFORMS})
+        else:
+            env = {**TRANSFORMS, **ctx, **data}
+        return dict(value=_q_tag(stateful_eval(expr, env, None, {}, None), c))
+    except Exception as e:
+        cause = e.__cause__ if type(e).__name__ == "FactorEvaluationError" and e.__cause__ is not None else e
+        return dict(error=type(cause).__name__)
+
+
+def _treatment_expr(c, callee="Treatment", arg="reference"):
+    ref = c["reference"]
+    if ref is None:
+        inner = f"{callee}()"
+    elif c["spelling"] == "kw":
+        inner = f"{callee}({arg}={ref!r})"
+    else:
+        inner = f"{callee}({ref!r})"
+    return f"{'1' if c['intercept'] else '0'} + C(a, {inner})"
+
+
+def impl_treatment(c):
+    from formulaic import model_matrix
+    from formulaic.transforms.contrasts import TreatmentContrasts
+    from formulaic.transforms import TRANSFORMS
+
+    ref = c["reference"]
+    shim = TRANSFORMS["Treatment"]
+    obj = shim() if ref is None else (shim(reference=ref) if c["spelling"] == "kw" else shim(ref))
+    out = dict(is_treatment=isinstance(obj, TreatmentContrasts) and obj == (TreatmentContrasts() if ref is None else TreatmentContrasts(base=ref)))
+    if c["frame"] == "arrow":
+        import pyarrow
+
+        frame = pyarrow.table({"a": c["rows"]})
+    else:
+        frame = pandas.DataFrame({"a": c["rows"]})
+    try:
+        mm = model_matrix(_treatment_expr(c), frame)
+    except Exception as e:
+        cause = e.__cause__ if type(e).__name__ == "FactorEvaluationError" and e.__cause__ is not None else e
+        out["error"] = type(cause).__name__
+        return out
+    labels = [l for l in column_labels(mm) if l != "Intercept"]
+    fields = []
+    for l in labels:
+        inner = l[l.rindex("[") + 1:-1]
+        fields.append(inner[2:] if (c["intercept"] and inner.startswith("T.")) else inner)
+    out["fields"] = fields
+    # the same coding spelled with the contrast it stands for
+    m2 = model_matrix(_treatment_expr(dict(c, spelling="kw" if ref is not None else "unset"), "contr.treatment", "base"), frame)
+    out["same_as_contr_treatment"] = bool(numpy.array_equal(as_matrix(mm), as_matrix(m2)))
+    # which rows each coded column marks
+    M = as_matrix(mm)
+    k0 = 1 if c["intercept"] else 0
+    out["marks"] = [sorted({str(c["rows"][r]) for r in range(M.shape[0]) if M[r, k0 + j] == 1.0}) for j in range(len(fields))]
+    return out
+
+
+def impl_identity(c):
+    from formulaic import model_matrix
+    from formulaic.transforms import TRANSFORMS
+
+    ident = TRANSFORMS["I"]
+    vec = c["data"]
+    dtype = c.get("dtype", "float64")
+    box = c["box"]
+    if box == "frame":
+        obj = make_frame(c, vec)
+    elif box == "dict":
+        obj = {"a": make_container(dict(container="ndarray", dtype=dtype), vec)}
+    elif box == "str":
+        obj = "x"
+    elif box in ("scalar", "npscalar", "zerodim"):
+        obj = _elem_boxed(Fraction(vec[0]), dtype, box)
+    else:
+        obj = make_container(dict(container=box, dtype=dtype), vec)
+    out = dict(same=ident(obj) is obj)
+    mm = model_matrix("0 + I(x)", make_frame(c, vec), na_action="ignore")
+    out["values"] = [jf(v) for v in as_matrix(mm)[:, 0]]
+    return out
+
+
 def impl(c):
     if c["kind"] == "names":
         from formulaic.transforms import TRANSFORMS
 
-        return dict(live=sorted(k for k in TRANSFORMS if k in ELEM_NAMES))
+        return dict(live=sorted(k for k in TRANSFORMS if k in ELEM_NAMES), keys=list(TRANSFORMS))
+    if c["kind"] == "Q":
+        return impl_q(c)
+    if c["kind"] == "treatment":
+        return impl_treatment(c)
+    if c["kind"] == "identity":
+        return impl_identity(c)
     if c["kind"] == "scale":
         return impl_scale(c)
     if c["kind"] == "poly":
@@ -744,12 +1294,12 @@ def impl(c):
     if c["kind"] == "elem":
         p = _elem_point(c["name"], c["k"])
         assert Fraction(float(p)) == p
-        o = _elem_eval(c["name"], p, c["via"], c.get("dtype", "float64"))
+        o = _elem_eval(c["name"], p, c["via"], c.get("dtype", "float64"), c.get("box", "ndarray"), c.get("frame", "pandas"))
         o["point"] = fr(p)
         return o
     x = unfr(c["x"])
     dtype = c.get("dtype", "float64")
-    o = _elem_eval(c["name"], x, c["via"], dtype)
+    o = _elem_eval(c["name"], x, c["via"], dtype, c.get("box", "ndarray"), c.get("frame", "pandas"))
     # round trip through the partner taken from the live table as well
     f, g = TRANSFORMS[c["name"]], TRANSFORMS.get(PARTNER[c["name"]])
     if g is not None:
@@ -767,10 +1317,23 @@ def impl(c):
 def request(c, o):
     if c["kind"] == "names":
         return dict(op="names")
+    if c["kind"] == "Q":
+        return dict(op="Q", variable=c["variable"], env=c["env"], layer=c.get("layer", ""),
+                    data=[[nm, "data:" + nm] for nm in c["columns"]],
+                    context=[[nm, "context:" + nm] for nm in c["context"]])
+    if c["kind"] == "treatment":
+        return dict(op="treatment", levels=c["levels"], reference=c["reference"], reduced=c["intercept"])
+    if c["kind"] == "identity":
+        return dict(op="identity", value=c["data"])
     if c["kind"] == "scale":
         calls = []
         for i, call in enumerate(c["calls"]):
-            r = dict(call)
+            pos, kws = written(call)
+            r = dict(fn=call["fn"], pos=pos, kw=[list(k) for k in kws])
+            if call.get("container") == "sparse":
+                r.update(container="sparse", cols=call["cols"])
+            else:
+                r.update(container="dense", data=call["data"])
             io = o.get("calls", [])[i] if i < len(o.get("calls", [])) else {}
             s = (io.get("state") or {}).get("scale")
             r["sqrt"] = fr(s) if isinstance(s, (int, float)) else None
@@ -779,7 +1342,8 @@ def request(c, o):
     if c["kind"] == "poly":
         calls = []
         for i, call in enumerate(c["calls"]):
-            r = dict(call)
+            pos, kws = written_poly(call)
+            r = dict(x=call["x"], pos=pos, kw=[list(k) for k in kws])
             io = o.get("calls", [])[i] if i < len(o.get("calls", [])) else {}
             sq = io.get("sqrts") or []
             r["sqrts"] = [fr(s) if isinstance(s, (int, float)) else "0/1" for s in sq]
@@ -828,13 +1392,17 @@ def agree_scale(c, o, m):
         if i >= len(ic) or i >= len(mc):
             if len(ic) != len(mc):
                 # both stop after a non-finite outcome; the implementation carries on with nan/inf
-                if i < len(ic) and i >= len(mc) and "error" in mc[-1]:
+                if i < len(ic) and i >= len(mc) and mc and mc[-1].get("error") == "nonfinite":
                     return None
                 return f"call {i}: implementation produced {len(ic)} results, model {len(mc)}"
             return None
         a, b = ic[i], mc[i]
-        if "error" in a and a["error"] != "nonfinite":
-            return f"call {i}: implementation raised {a['error']}"
+        if "error" in a:  # a raised exception: the model must raise the same one; `_state` is untouched, the history goes on
+            if b.get("error") != a["error"]:
+                return f"call {i}: implementation raised {a['error']}, model {b.get('error', 'returns a value')}"
+            continue
+        if b.get("error") in ("ValueError", "TypeError", "unmodelled"):
+            return f"call {i}: model raises {b['error']}, the implementation returned {str(a)[:200]}"
         if "error" in b:
             if _has_nonfinite(a):
                 return None
@@ -946,6 +1514,15 @@ def agree_poly(c, o, m):
                     return f"call {i}: [{r},{j}] = {u!r} vs model {v!r}"
                 if v is not None and not close(float(u), fl(v), OUT_TOL if not call["raw"] else 1e-12):
                     return f"call {i}: [{r},{j}] = {u!r} vs model {fl(v)!r}"
+        # the names the columns are given: `FactorValues(..., column_names=("1", …, str(degree)))` on the orthogonal
+        # branch, none on the raw branch; through a formula they become the labels `poly(x, d)[k]`
+        if "names" in b and c.get("route") is None:
+            if a.get("column_names") != b["names"]:
+                return f"call {i}: column_names {a.get('column_names')} vs model {b['names']}"
+        if b.get("names") is not None and "labels" in a and a["labels"]:
+            want = [f"{a['expr']}[{nm}]" for nm in b["names"]]
+            if a["labels"] != want:
+                return f"call {i}: column labels {a['labels']} vs model {want}"
     return None
 
 
@@ -961,6 +1538,29 @@ def agree(c, o, m):
             return f"model table names {sorted(m.get('names', []))} differ from the probed names {sorted(ELEM_NAMES)}"
         if o.get("live") != sorted(ELEM_NAMES):
             return f"live TRANSFORMS has only {o.get('live')} of {sorted(ELEM_NAMES)}"
+        # the contract of every preloaded name against what the live object is (Gen/TransformTable.lean)
+        rows = {r["name"]: r for r in m.get("contracts", [])}
+        unmet = sorted(n for n, r in rows.items() if not r["met"])
+        if unmet:
+            return f"preloaded names that do not meet their contract: {[(n, rows[n]['contract']) for n in unmet]}"
+        for n in ELEM_NAMES:
+            if rows.get(n, {}).get("computes") != n:
+                return f"the live entry {n!r} is identified as computing {rows.get(n, {}).get('computes')!r}"
+        return None
+    if c["kind"] == "Q":
+        if o != m:
+            return f"Q({c['variable']!r}) in environment {c['env']}: implementation {o}, model {m}"
+        return None
+    if c["kind"] == "treatment":
+        if ("error" in o) != ("error" in m) or ("error" in o and o["error"] != m["error"]):
+            return f"Treatment({c['reference']!r}) on levels {c['levels']}: implementation {o.get('error', 'returns')}, model {m.get('error', 'returns')}"
+        if "error" not in o and o["fields"] != [str(x) for x in m["names"]]:
+            return f"Treatment({c['reference']!r}) on levels {c['levels']}: coded columns {o['fields']}, model {m['names']}"
+        return None
+    if c["kind"] == "identity":
+        want = [fl(v) for v in m.get("value", [])]
+        if not o.get("same") or o.get("values") != want:
+            return f"I(x): same object {o.get('same')}, column {o.get('values')} vs model {want}"
         return None
     if c["kind"] == "scale":
         return agree_scale(c, o, m)
@@ -1052,37 +1652,73 @@ def _same_affine_map(c, calls):
     return None
 
 
+def _ddof_value(d):
+    return (1.0 if d else 0.0) if isinstance(d, bool) else float(Fraction(d))
+
+
 def oracle_scale(c, o):
     calls = o.get("calls", [])
     if not calls:
         return None
-    for a in calls:
+    # the calls the property speaks about: a vector (a sparse matrix with one column is one; with another number of
+    # columns it is not, and `ValueError` is the library's answer), arguments that bind (else `TypeError`)
+    pairs = []
+    for call, a in zip(c["calls"], calls):
+        multicol = call.get("container") == "sparse" and len(call.get("cols", [])) != 1
+        eff = effective(call)
         if "error" in a:
-            return f"{c['calls'][0]['fn']} raised {a['error']}"
-    c0, a0 = c["calls"][0], calls[0]
+            if (multicol and a["error"] == "ValueError") or (eff is None and a["error"] == "TypeError"):
+                continue
+            return f"{call['fn']} raised {a['error']} on {describe_call(call)}"
+        if multicol or eff is None:
+            continue
+        pairs.append((call, a, eff))
+    if not pairs:
+        return None
+    c0, a0, e0 = pairs[0]
     fn = c0["fn"]
+    how = describe_call(c0)
     x0 = _arr([fl(v) for v in c0["data"]])
     n = len(x0)
     fresh = not c["state"]
     # which statistics were fitted on this data, as the property words it
-    centered = fresh and (fn == "center" or c0.get("center", True) is True)
-    scaled = fresh and fn != "center" and c0.get("scale", True) is True
-    ddof = float(Fraction(c0["ddof"])) if "ddof" in c0 else (0.0 if fn == "standardize" else 1.0)
+    centered = fresh and e0["center"] is True
+    scaled = fresh and e0["scale"] is True
+    ddof = _ddof_value(e0["ddof"])
     mag = float(numpy.max(numpy.abs(x0)))  # relative to the data's own magnitude, whatever it is
     spread = float(numpy.max(x0) - numpy.min(x0))
     if centered and not scaled and not _has_nonfinite(a0) and a0["state"].get("scale") is None:
         y = _arr(a0["out"])
-        if abs(y.mean()) > 1e-9 * mag:
-            return f"{fn}: mean of the centred fitting data is {y.mean()!r}, not 0"
+        if y.shape != x0.shape or abs(y.mean()) > 1e-9 * mag:
+            return f"{fn}: mean of the centred fitting data is {y.mean()!r}, not 0 ({how})"
     if centered and scaled and n - ddof > 0 and spread > 0:
         if _has_nonfinite(a0):
-            return f"{fn}: non-constant data with ddof < n gave nan/inf: {a0}"
+            return f"{fn}: non-constant data with ddof < n gave nan/inf: {a0} ({how})"
         y = _arr(a0["out"])
-        if abs(y.mean()) > 1e-9:
-            return f"{fn}: mean of the standardised fitting data is {y.mean()!r}, not 0"
+        if y.shape != x0.shape or abs(y.mean()) > 1e-9:
+            return f"{fn}: mean of the standardised fitting data is {y.mean()!r}, not 0 ({how})"
         sd = math.sqrt(float(((y - y.mean()) ** 2).sum()) / (n - ddof))
         if abs(sd - 1.0) > 1e-9:
-            return f"{fn}: standard deviation (ddof={ddof}) of the standardised fitting data is {sd!r}, not 1"
+            return f"{fn}: standard deviation (ddof={ddof}) of the standardised fitting data is {sd!r}, not 1 ({how})"
+    if fresh and e0["scale"] is False and not _has_nonfinite(a0):
+        # scale=False: the data are only shifted by the chosen centre (their mean, 0, or the number given)
+        y = _arr(a0["out"])
+        cval = float(x0.mean()) if e0["center"] is True else (0.0 if e0["center"] is False else fl(e0["center"]))
+        if y.shape != x0.shape or float(numpy.max(numpy.abs(y - (x0 - cval)), initial=0.0)) > 1e-9 * max(mag, abs(cval)):
+            return (f"{fn}: with scale=False the data must only be shifted by the centre {cval!r}; "
+                    f"got {y.tolist()[:4]} for {x0.tolist()[:4]} ({how})")
+    if scaled and not centered and n - ddof > 0:
+        # scale=True without the mean: unit standard deviation ABOUT THE CHOSEN CENTRE (0, or the number given)
+        cval = 0.0 if e0["center"] is False else fl(e0["center"])
+        dev = x0 - cval
+        if float(numpy.max(numpy.abs(dev))) > 0:
+            if _has_nonfinite(a0):
+                return f"{fn}: data that differ from the chosen centre {cval!r} with ddof < n gave nan/inf ({how})"
+            y = _arr(a0["out"])
+            rms = math.sqrt(float((y ** 2).sum()) / (n - ddof)) if y.shape == x0.shape else float("nan")
+            if not abs(rms - 1.0) <= 1e-9:
+                return (f"{fn}: standard deviation (ddof={ddof}) of the rescaled fitting data about the chosen centre "
+                        f"{cval!r} is {rms!r}, not 1 ({how})")
     # recorded statistics applied unchanged to every later vector, whatever arguments are passed
     if _has_nonfinite(a0):
         return None
@@ -1091,11 +1727,10 @@ def oracle_scale(c, o):
         if why:
             return why
     st0 = a0["state"]
-    for i in range(1, len(calls)):
-        a = calls[i]
+    for call, a, _ in pairs[1:]:
         if a["state"] != st0:
             return f"{fn}: recorded statistics changed on follow-up data: {st0} -> {a['state']}"
-        y = _arr([fl(v) for v in c["calls"][i]["data"]])
+        y = _arr([fl(v) for v in call["data"]])
         want = y
         if st0.get("center") is not None:
             want = want - st0["center"]
@@ -1106,8 +1741,15 @@ def oracle_scale(c, o):
         got = _arr(a["out"])
         ref = float(numpy.max(numpy.abs(want))) if want.size else 0.0
         if got.shape != want.shape or not numpy.allclose(got, want, rtol=1e-12, atol=1e-12 * ref):
-            return f"{fn}: follow-up vector not transformed with the recorded statistics {st0}: got {got.tolist()[:4]}, want {want.tolist()[:4]}"
+            return (f"{call['fn']}: follow-up vector not transformed with the recorded statistics {st0}: "
+                    f"got {got.tolist()[:4]}, want {want.tolist()[:4]} ({describe_call(call)})")
     return None
+
+
+def describe_call(call):
+    if call.get("container") == "sparse":
+        return f"sparse {call.get('format', 'csc')} matrix with {len(call.get('cols', []))} column(s)"
+    return f"{call.get('container', 'ndarray')} of {call.get('dtype', 'float64')}"
 
 
 def _same_polynomials(c, calls, d, x, Q):
@@ -1154,6 +1796,11 @@ def _same_polynomials(c, calls, d, x, Q):
     return None
 
 
+def _bool_degree(call):
+    pos, kws = written_poly(call)
+    return (bool(pos) and isinstance(pos[0], bool)) or any(k == "degree" and isinstance(v, bool) for k, v in kws)
+
+
 def oracle_poly(c, o):
     calls = o.get("calls", [])
     if not calls:
@@ -1162,7 +1809,13 @@ def oracle_poly(c, o):
     if "error" in a0:
         if c0["raw"] and c0["degree"] == 0 and a0["error"] == "ValueError":
             return None  # numpy.stack of no columns; the property does not speak about an empty raw basis
+        if c0["degree"] < 0 and a0["error"] == "ValueError":
+            return None  # not a degree
+        if (c0.get("bad") or _bool_degree(c0)) and a0["error"] == "TypeError":
+            return None  # an ill-formed argument list / `True` written for the degree
         return f"poly raised {a0['error']} on its fitting data"
+    if c0.get("bad") or c0["degree"] < 0:
+        return None
     d = c0["degree"]
     xs = c0["x"]
     nulls = [v is None for v in xs]
@@ -1217,9 +1870,13 @@ def oracle_poly(c, o):
     for i in range(1, len(calls)):
         a, ci = calls[i], c["calls"][i]
         if "error" in a:
-            if ci["degree"] > d or (ci["raw"] and ci["degree"] == 0):
+            if ci["degree"] > d or (ci["raw"] and ci["degree"] == 0) or ci["degree"] < 0:
                 continue  # a degree that was never fitted cannot be replayed; the property does not speak about it
+            if (ci.get("bad") or _bool_degree(ci)) and a["error"] == "TypeError":
+                continue  # an ill-formed argument list / `True` written for the degree
             return f"poly raised {a['error']} on follow-up data"
+        if ci.get("bad") or ci["degree"] < 0:
+            continue
         if a["state"] != st0:
             return f"poly: recorded alpha/norms2 changed on follow-up data"
         if ci["degree"] > d:
@@ -1284,6 +1941,31 @@ def oracle(c, o):
         return oracle_scale(c, o)
     if c["kind"] == "poly":
         return oracle_poly(c, o)
+    if c["kind"] == "Q":
+        # Q("name") is the data column of that name, whatever else carries the name
+        has_data_layer = c["env"] == "materializer" or (c["env"] == "named" and c["layer"] == "data")
+        if has_data_layer and c["variable"] in c["columns"] and o != dict(value="data:" + c["variable"]):
+            return f"Q({c['variable']!r}) on data with columns {c['columns']} (context {c['context']}): {o}"
+        return None
+    if c["kind"] == "treatment":
+        ref, levels = c["reference"], c["levels"]
+        if not o.get("is_treatment"):
+            return f"Treatment({'' if ref is None else repr(ref)}) is not treatment coding with that reference level"
+        if ref is not None and ref not in levels:
+            return None if "error" in o else f"Treatment({ref!r}) accepted a reference that is no level of {levels}"
+        if "error" in o:
+            return f"C(a, Treatment({'' if ref is None else repr(ref)})) raised {o['error']} on levels {levels}"
+        base = levels[0] if ref is None else ref
+        want = [str(l) for l in levels if (l != base or not c["intercept"])]
+        if o["fields"] != want or o["marks"] != [[w] for w in want] or not o["same_as_contr_treatment"]:
+            return (f"C(a, Treatment({'' if ref is None else repr(ref)})) with{'' if c['intercept'] else 'out'} intercept on levels "
+                    f"{levels}: columns {o['fields']} marking {o['marks']}, expected one indicator per level in {want}")
+        return None
+    if c["kind"] == "identity":
+        want = [fl(v) for v in c["data"]]
+        if not o.get("same") or o.get("values") != want:
+            return f"I(x) is not x: same object {o.get('same')}, column {o.get('values')[:4]} for data {want[:4]}"
+        return None
     return oracle_elem(c, o)
 
 
@@ -1292,18 +1974,32 @@ def classify(c, o, why):
 
 
 LEVEL_TEXT = (
-    "Proof: Lean theorems (Props/C13.lean) about the executable models of scale/center/standardize and poly, stated "
-    "for ALL vectors, lengths, flags, ddof, degrees and follow-up vectors over an arbitrary field (and over the reals "
-    "with Real.sqrt): zero mean, unit standard deviation, recorded statistics re-applied and never refitted; the "
-    "general three-term-recurrence orthogonality theorem and its instance for poly (orthonormal, orthogonal to 1, monic "
-    "degree-k polynomials hence same span as the raw powers, NaN rows row-wise); exp/log inverse pairs and "
-    "exp10 x = 10^x over the reals for the functions the model table names. The models are tied to the code by a "
-    "differential correspondence on every run; the elementwise table is tied by exact evaluation of the live "
-    "TRANSFORMS entries at exactly representable points. That the state reaches the transform on follow-up data "
-    "(however the call is spelled, wherever it sits in the factor, through each public entry point) is tied by the "
-    "`ref` stream: recorded state and outputs of the library-managed history equal the model's explicit-state history."
+    "Proof: 35 Lean theorems (Props/C13.lean) about the executable models, stated for ALL vectors, lengths, flags, "
+    "ddof, degrees, states and follow-up vectors over an arbitrary field (and over the reals with Real.sqrt). "
+    "scale/center/standardize: zero mean, unit standard deviation (about the mean, or about the chosen centre for "
+    "center=False/number), recorded statistics re-applied and never refitted - also through the entry points as a "
+    "caller reaches them (Model/ScaleEntry.lean: argument binding against the LIVE signatures incl. the defaults "
+    "ddof=1 / ddof=0 / keyword `rescale`, center = scale(scale=False), the singledispatch branch for scipy.sparse "
+    "with its ValueError), with any of the three names on the follow-up call. poly: general three-term-recurrence "
+    "orthogonality and its instance (orthonormal, orthogonal to 1), monic degree-k polynomials; the RETURNED normalised "
+    "columns together with the constant span the raw powers for every degree; raw=True is exactly the raw powers for "
+    "every degree (ValueError at 0) and leaves the state alone; a missing value inserted at ANY position changes only "
+    "that row; recorded alpha/norms2 replayed, and after ANY successful call from ANY state every later successful call "
+    "returns the state unchanged and applies fixed functions of the record row-wise (never refits); over the reals the "
+    "hypothesis norms2[k] != 0 is a property of the data: poly(xs, d) is finite EXACTLY when xs has more than d distinct "
+    "non-missing values, and then the columns are orthonormal and orthogonal to 1; binding, defaults, bool/negative degree "
+    "and column names. elementwise: "
+    "exp/log inverse pairs and exp10 x = 10^x over the reals for the functions the model table names, and (decided "
+    "against the regenerated live table) each name's live object IS numpy's ufunc of that name / a callable probed to "
+    "be 10^x; every one of the 26 preloaded names meets a stated contract (stateful marker for the transforms that "
+    "record statistics). Q reads the data layer only; Treatment(r) is treatment coding with base r; I is the identity. "
+    "The models are tied to the code by a differential correspondence on every run (every container and storage type "
+    "the library passes); that the state reaches the transform on follow-up data (however the call is spelled, wherever "
+    "it sits in the factor, through each public entry point) is tied by the `ref` stream."
 )
 LEVEL_NOTE = (
     "Partial: libm accuracy of exp/log/sqrt and IEEE rounding are observed (exact probes, 1e-12 / 1e-9 tolerances), "
-    "not proved; numpy's nan/inf outcomes are collapsed to one `nonFinite` outcome in the model."
+    "not proved; numpy's nan/inf outcomes are collapsed to one `nonFinite` outcome in the model; the conversion of a "
+    "container to the vector of its numbers (numpy.array, toarray) is numpy's and enters the model as that vector; "
+    "matrix-valued (2-D) input to scale and dict-valued data are outside this property's model."
 )
